@@ -278,6 +278,10 @@ def relabel_steps(ser, how):
     elif how == "unsorted":
         perm = steps[::-1] if len(steps) % 2 else steps[1:] + steps[:1]
         m = dict(zip(steps, perm))
+    elif how == "timestamp_ns":
+        m = {s_: 1_700_000_000_000_000_000 + q for q, s_ in enumerate(steps)}       # int64 nanosecond time stamps
+    elif how == "negative":
+        m = {s_: q - len(steps) - 3 for q, s_ in enumerate(steps)}                  # counted back from a trigger event
     else:
         return ser
     idx = pd.MultiIndex.from_arrays([[m[a] for a in ser.index.get_level_values("load_step")],
@@ -463,7 +467,7 @@ def generate(prop, rng, tier):
             tr["subset_of_mesh"] = rng.random() < 0.4
             tr["law_order"] = rng.choice(["samples", "samples", "sorted", "reversed"])
             tr["series_name"] = rng.choice([None, None, "load", "F"])
-            tr["step_labels"] = rng.choice(["range", "range", "gapped", "offset", "unsorted"])
+            tr["step_labels"] = rng.choice(["range", "range", "gapped", "offset", "unsorted", "timestamp_ns", "negative"])
         return tr
     return generate_c05(rng, tier)
 
@@ -527,7 +531,7 @@ def generate_c05(rng, tier):
         tr["subset_of_mesh"] = rng.random() < 0.4
         tr["law_order"] = rng.choice(["samples", "samples", "sorted", "reversed"])
         tr["series_name"] = rng.choice([None, None, "load", "F"])
-        tr["step_labels"] = rng.choice(["range", "range", "gapped", "offset", "unsorted"])
+        tr["step_labels"] = rng.choice(["range", "range", "gapped", "offset", "unsorted", "timestamp_ns", "negative"])
         # K2 wants all loads off the class edges (see DESIGN 4.5 "known trap")
         f = 1.0137
         loads = [x * step for x in lv]
@@ -634,7 +638,7 @@ def exec_c04(trace, out, log):
             out.count("probe:node_major_rows")
         if trace.get("series_name"):
             ser = ser.rename(trace["series_name"])           # users' series usually carry a name
-        if trace.get("step_labels") in ("gapped", "offset", "unsorted"):
+        if trace.get("step_labels") in ("gapped", "offset", "unsorted", "timestamp_ns", "negative"):
             ser = relabel_steps(ser, trace["step_labels"])
             out.count("probe:load_step_labels_" + trace["step_labels"])
         law = get_law(trace["law"], int(trace["mat"]), law_nodes([(i, big * 1.0731 * r) for i, r in nodes], trace.get("law_order")), int(trace["bins"]))
@@ -985,7 +989,7 @@ def exec_c05(trace, out, log):
         out.count("probe:node_major_rows")
     if trace.get("series_name"):
         batch = batch.rename(trace["series_name"])
-    if trace.get("step_labels") in ("gapped", "offset", "unsorted"):
+    if trace.get("step_labels") in ("gapped", "offset", "unsorted", "timestamp_ns", "negative"):
         batch = relabel_steps(batch, trace["step_labels"])
         out.count("probe:load_step_labels_" + trace["step_labels"])
     if shared:
